@@ -561,6 +561,10 @@ func RandomMovie(r *runner.Rand, o MovieOptions) *File {
 			}
 		case kind == "video":
 			t.Timescale = uint32(r.PickInt(90000, 25000, 30000, 12800, 15360, 24000, 600, 1000, 10000000))
+			if r.Chance(1, 12) {
+				// huge timescale: decode times pass 2^32 ticks inside one stts run within a second or two
+				t.Timescale = uint32(r.PickU64(4000000000, 1<<31, 3000000000))
+			}
 			fps := r.PickInt(5, 10, 15, 25)
 			d := int64(t.Timescale) / int64(fps)
 			n := int((int64(durMS)*int64(t.Timescale)/1000 + d - 1) / d)
@@ -677,6 +681,15 @@ func RandomMovie(r *runner.Rand, o MovieOptions) *File {
 		t.Co64 = r.Chance(1, 3)
 		t.TkhdVersion = byte(r.Intn(2))
 		t.MdhdVersion = byte(r.Intn(2))
+		{
+			var total uint64
+			for _, d := range durs {
+				total += uint64(d)
+			}
+			if total >= 1<<32 {
+				t.MdhdVersion = 1 // 64-bit duration needed
+			}
+		}
 		if r.Chance(1, 3) {
 			t.ElstVersion = byte(r.Intn(2))
 			var total uint64
